@@ -151,135 +151,125 @@ def write_mc(path):
 
 # --------------------------------------------------------------------------- random programs
 def random_program(rng, kind):
-    """kind: 'q' manual queue + immediate only (all sites are the specification's), 'pool' real pool."""
+    """A random program within the documented contract of Future (R1):
+       * a handle (Future object) is used by one thread only; other threads get their own copies before `go`;
+       * a task set is used by its owner (main) only and is waited before it is destroyed; the pool is destroyed last,
+         after every other thread has finished (`sync`);
+       * continuations are attached to Future<int>; when_all / when_any take distinct Future<int> inputs.
+       kind 'q': manual queue + ImmediateInvoker only (every schedule point is the specification's);
+       kind 'pool': the real ThreadPool / TaskSet / ConcurrentTaskSet / NewThreadInvoker as well."""
     pool = kind == 'pool'
     nw = rng.choice([0, 1, 2, 2]) if pool else 0
     main = []
-    others = {}
     if pool:
         main.append('new.w%d' % nw)
-    nfut = [0]
-    nh = [0]
+    cnt = {'f': 0, 'h': 0, 'runq': 0}
+    ts_used = []
+    scheds = [1, 1, 2] if not pool else [4, 4, 5, 6, 3, 2, 1]
 
     def fid():
-        nfut[0] += 1
-        return nfut[0]
+        cnt['f'] += 1
+        return cnt['f']
 
     def hid():
-        nh[0] += 1
-        return nh[0]
-    ts_used = []
-    scheds = [1, 2] if not pool else [4, 4, 5, 6, 3, 2]
-    runq = 0
-    live = []   # (handle, fut, owner)
-    # setup by main: 1-2 base futures
-    nbase = rng.choice([1, 1, 2])
-    base = []
-    for _ in range(nbase):
+        cnt['h'] += 1
+        return cnt['h']
+
+    def pick_sched(is_main):
         s = rng.choice(scheds)
         t = 0
         if s in (5, 6):
             t = 1 if s == 5 else 2
+            if not is_main:
+                return 4, 0
             if t not in ts_used:
                 ts_used.append(t)
                 main.append('tsnew.t%d.k%d' % (t, s))
+        return s, t
+
+    base = []
+    for _ in range(rng.choice([1, 1, 2])):
+        s, t = pick_sched(True)
         f, h = fid(), hid()
         v = rng.choice([7, 8, 9, -100])
         a = rng.choice([0, 0, 1]) if s in (4, 5, 6) else 0
-        if s == 4 and nw == 0:
-            a = rng.choice([0, 1])
         d = rng.choice([0, 1])
         main.append('mk.h%d.f%d.s%d.a%d.d%d.v%d%s' % (h, f, s, a, d, v, '.t%d' % t if t else ''))
         if s == 1:
-            runq += 1
-        base.append((h, f, s, t, d))
-    # copies for the other threads
-    nthreads = rng.choice([0, 1, 1, 2])
-    tnames = ['p%d' % (i + 1) for i in range(nthreads)]
+            cnt['runq'] += 1
+        base.append((h, f))
+    tnames = ['p%d' % (i + 1) for i in range(rng.choice([0, 1, 1, 2]))]
     mine = {n: [] for n in tnames}
-    mine['main'] = []
-    for (h, f, s, t, d) in base:
-        mine['main'].append((h, f))
+    mine['main'] = [(h, f, 'i') for (h, f) in base]
+    for (h, f) in base:
         for n in tnames:
-            if rng.random() < 0.8:
+            if rng.random() < 0.8 and cnt['h'] < 6:
                 h2 = hid()
                 main.append('cp.h%d.H%d.f%d' % (h, h2, f))
-                mine[n].append((h2, f))
+                mine[n].append((h2, f, 'i'))
     main.append('go')
 
-    def body(name, hs, allow_comb):
+    def body(name, hs):
+        is_main = name == 'main'
         ops = []
         hs = list(hs)
-        for _ in range(rng.randint(1, 3)):
+        for _ in range(rng.randint(1, 4)):
             if not hs:
                 break
-            h, f = rng.choice(hs)
+            h, f, k = rng.choice(hs)
             c = rng.random()
-            if c < 0.22:
+            if c < 0.2:
                 ops.append('get.h%d.f%d' % (h, f))
-            elif c < 0.34:
+            elif c < 0.3:
                 ops.append('wait.h%d.f%d' % (h, f))
-            elif c < 0.5:
+            elif c < 0.44:
                 ops.append('wf.h%d.f%d.v%d' % (h, f, rng.choice([0, 0, -3, 150, 700])))
-            elif c < 0.58:
+            elif c < 0.52:
                 ops.append('wu.h%d.f%d.v%d' % (h, f, rng.choice([0, -7, 90, 400])))
-            elif c < 0.66:
+            elif c < 0.58:
                 ops.append('rdy.h%d.f%d' % (h, f))
-            elif c < 0.76 and nh[0] < 7:
+            elif c < 0.66 and cnt['h'] < 8:
                 h2 = hid()
                 ops.append('cp.h%d.H%d.f%d' % (h, h2, f))
-                hs.append((h2, f))
-            elif c < 0.9 and nh[0] < 7 and nfut[0] < 6:
-                nonlocal runq
-                s = rng.choice(scheds)
-                t = 0
-                if s in (5, 6):
-                    # (R1) a task set is only used by the thread that owns it (main), never concurrently with wait()
-                    t = 1 if s == 5 else 2
-                    if t not in ts_used or name != 'main':
-                        s = 4
-                        t = 0
+                hs.append((h2, f, k))
+            elif c < 0.84 and k == 'i' and cnt['h'] < 8 and cnt['f'] < 7:
+                s, t = pick_sched(is_main)
                 g, h2 = fid(), hid()
                 a = rng.choice([0, 1]) if s in (4, 5, 6) else 0
                 ops.append('then.h%d.f%d.H%d.g%d.s%d.a%d.d%d%s' % (h, f, h2, g, s, a, rng.choice([0, 1]), '.t%d' % t if t else ''))
-                hs.append((h2, g))
+                hs.append((h2, g, 'i'))
                 if s == 1:
-                    runq += 1
-            elif allow_comb and nh[0] < 7 and nfut[0] + 3 <= 7:
-                k = rng.choice([0, 1, 1, 2, 2]) if len(hs) > 1 else rng.choice([0, 1])
-                inp = [hs[i] for i in sorted(rng.sample(range(len(hs)), min(k, len(hs))))]
-                # inputs must be distinct futures' handles
-                seen, sel = set(), []
-                for (hh, ff) in inp:
-                    if ff not in seen:
-                        seen.add(ff)
-                        sel.append((hh, ff))
+                    cnt['runq'] += 1
+            elif cnt['h'] < 8:
+                ints = {}
+                for (hh, ff, kk) in hs:
+                    if kk == 'i' and ff not in ints:
+                        ints[ff] = hh
+                cand = sorted(ints.items())
+                n = rng.choice([0, 1, 1, 2, 2, 3])
+                sel = rng.sample(cand, min(n, len(cand)))
+                if cnt['f'] + 1 + len(sel) > 7:
+                    continue
                 R, hR = fid(), hid()
                 ys = [fid() for _ in sel]
-                t = rng.choice([0] + ts_used) if name == 'main' else 0
-                ops.append('%s.h%d.f%d.I%s.i%s.y%s%s' % (rng.choice(['wall', 'wany']), hR, R,
-                                                         '_'.join(str(x[0]) for x in sel), '_'.join(str(x[1]) for x in sel),
+                t = rng.choice([0] + ts_used) if is_main else 0
+                w = rng.choice(['wall', 'wany'])
+                ops.append('%s.h%d.f%d.I%s.i%s.y%s%s' % (w, hR, R, '_'.join(str(x[1]) for x in sel), '_'.join(str(x[0]) for x in sel),
                                                          '_'.join(str(y) for y in ys), '.t%d' % t if t else ''))
-                hs.append((hR, R))
-            else:
-                ops.append('rdy.h%d.f%d' % (h, f))
-        # every handle is destroyed by its owner; a getter first now and then
+                hs.append((hR, R, 'v' if w == 'wall' else 's'))
         rng.shuffle(hs)
-        for (h, f) in hs:
+        for (h, f, k) in hs:     # every handle is destroyed by its owner; a getter first now and then
             if rng.random() < 0.4:
                 ops.append('get.h%d.f%d' % (h, f))
             ops.append('del.h%d.f%d' % (h, f))
         return ops
 
-    for n in tnames:
-        others[n] = ['up'] + body(n, mine[n], False)
-    mops = body('main', mine['main'], True)
-    # main waits for its task sets before tearing down (R1: a task set is waited before it is destroyed)
-    main += mops
+    others = {n: ['up'] + body(n, mine[n]) for n in tnames}
+    main += body('main', mine['main'])
     for t in ts_used:
         if rng.random() < 0.7:
             main.append('tswait.t%d' % t)
-    if tnames or runq:
+    if tnames or cnt['runq']:
         main.append('sync')
     for t in ts_used:
         main.append('tsdel.t%d' % t)
@@ -288,8 +278,8 @@ def random_program(rng, kind):
     text = 'main:' + ','.join(main)
     for n in tnames:
         text += ';%s:%s' % (n, ','.join(others[n]))
-    if runq:
-        text += ';r:up,' + ','.join(['runq'] * runq)
+    if cnt['runq']:
+        text += ';r:up,' + ','.join(['runq'] * cnt['runq'])
     return text
 
 
